@@ -44,7 +44,7 @@ Definition all_flags : list string :=
   map (fl "section_not_read") units ++ map (fl "enabled_option_missing") units
   ++ map (fl "whole_config_fallback") units ++ map (fl "language_override_ignored") units
   ++ map (fl "cli_override_skips_language_sections") (map cmd_of units)
-  ++ ["repo_ignore_not_loaded[json]"; "repo_ignore_not_loaded[pyproject]"; "repo_ignore_not_loaded[--config]";
+  ++ ["repo_ignore_not_loaded[pyproject]"; "repo_ignore_not_loaded[--config]";
       "global_config_option_ignored"; "dry_config_option_merges_section_only";
       "pyproject_unparsable_swallowed"; "wrong_type_swallowed";
       "language_block_error_retried_without_language"; "invalid_top_level_value_shadowed_by_language_block"].
@@ -201,7 +201,7 @@ Definition code_patterns (p : project) : list string := code_patterns_from p rep
 Definition repo_patterns (q : quirks) (c : case) : list string :=
   let code := code_patterns (c_proj c) in
   match selected q c with
-  | LDoc KJson raw => if has q "repo_ignore_not_loaded[json]" then code else pats raw
+  | LDoc KJson raw => code     (* repaired: the list of files read from the source covers .thailint.json *)
   | LDoc KPy raw => if has q "repo_ignore_not_loaded[pyproject]" then code else pats raw
   | LDoc KDash raw => if has q "repo_ignore_not_loaded[--config]" then code else pats raw
   | _ => code
@@ -212,8 +212,16 @@ Definition orow := (string * string * string * string * list string)%type.  (* c
 Definition rows_for (tbl : list orow) (cmd cli : string) : list orow :=
   filter (fun r => match r with (c, o, _, _, _) => String.eqb c cmd && String.eqb o cli end) tbl.
 
+Fixpoint slist_eqb (a b : list string) : bool :=
+  match a, b with
+  | [], [] => true
+  | x :: xs, y :: ys => String.eqb x y && slist_eqb xs ys
+  | _, _ => false
+  end.
+(* the languages found in the source when they are all the languages (nesting, repaired), else the complete list *)
 Definition override_langs (q : quirks) (cmd : string) (langs : list string) : list string :=
-  if has q (fl "cli_override_skips_language_sections" cmd) then langs else all_languages.
+  if has q (fl "cli_override_skips_language_sections" cmd) then langs
+  else if slist_eqb langs all_languages then langs else all_languages.
 
 (* nesting_config[lang]["opt"] = z, skipped when the sub-section is absent (suppress(KeyError)) *)
 Definition set_lang (opt : string) (z : Z) (s : dict) (lang : string) : dict :=
